@@ -1,7 +1,7 @@
 (* C12 -- Extracted HTTP APIs are exactly the annotated Spring handler methods.
    Only statements live here; every proof is [exact <lemma of Proofs/ApiProofs.v>]. *)
 From Coq Require Import String List Bool Arith.
-From Coca Require Import Lib.Str Model.ApiScan Model.ApiSpec Proofs.ApiProofs.
+From Coca Require Import Lib.Str Model.ApiScan Model.ApiSpec Proofs.ApiProofs Proofs.ApiTotalProofs.
 Import ListNotations.
 Open Scope string_scope.
 
@@ -18,6 +18,14 @@ Theorem C12_per_file : forall units,
     = Some (flat_map (fun u => match unit_apis u with Some l => l | None => [] end) units).
 Proof. exact api_files_per_file. Qed.
 Print Assumptions C12_per_file.
+
+(* 1b. since the quote removal is total (f378a35) the hypothesis of C12_per_file always holds: for EVERY
+       file list the scan completes and is the concatenation of the per-file results *)
+Theorem C12_per_file_unconditional : forall units,
+    option_map snd (api_files astate0 units)
+    = Some (flat_map (fun u => match unit_apis u with Some l => l | None => [] end) units).
+Proof. exact api_files_total_per_file. Qed.
+Print Assumptions C12_per_file_unconditional.
 
 (* 2. a class without a controller annotation contributes nothing, whatever mapping annotations
       it carries *)
